@@ -31,7 +31,7 @@ TRUSTED = [
     "modelled not verified: registers and every other part of the compiler; metatables never change after creation "
     "(so the run-time 'missing __close' check in cleanupCloseStack is not exercised); handlers are atomic (record, maybe raise)",
 ]
-THEOREMS_IM = ["C10_compile_correct_partial", "C10_compile_correct_nogoto_partial", "C10_tailcall_disabled_with_pending_close"]
+THEOREMS_IM = ["C10_compile_correct_partial", "C10_compile_correct_labels_first_partial", "C10_tailcall_disabled_with_pending_close"]
 
 # ------------------------------------------------------------------ programs
 # stmt: ('L', v) ('D', b) ('W', b) ('U', b) ('F', v, b) ('I', b) ('B',) ('G', l) (':', l) ('M', n)
@@ -456,6 +456,25 @@ def has_closed_yield_under_pcall(b, in_coro_closed=False, under_pcall=False):
     return False
 
 
+def labels_first(b):
+    """FragL.fragBl false: in every block the label statements precede the block's first local
+    (the fragment on which compile_correct is proved)"""
+    seen_local = False
+    for s in b[0]:
+        k = s[0]
+        if k == ":" and seen_local:
+            return False
+        if k == "L":
+            seen_local = True
+        if k in "DWUICP" and not labels_first(s[1]):
+            return False
+        if k in "FK" and not labels_first(s[2]):
+            return False
+    if b[1] not in (None, "R") and not labels_first(b[1][1]):
+        return False
+    return True
+
+
 def parse_oracle(line):
     f = line.split(" ")
     d = {"id": f[0]}
@@ -490,7 +509,13 @@ def evaluate(ck, gvh, oracle, cases):
         src = lua_program(b)
         run = model[i]["R"] != "FUEL"
         glines.append("c%d %s %s%s" % (i, src.encode().hex(), ds or "-", "" if run else " norun"))
-    gout = vlib.run_lines_resilient(gvh, [], glines, per_case_timeout=10)
+    # feed the Go side in chunks: one long-lived process accumulates address space over tens of
+    # thousands of fresh runtimes and eventually hits the runner's ulimit -v (a harness artefact,
+    # seen once in the thorough tier: "runtime: out of memory" after ~19 000 cases)
+    gout = []
+    CH = 4000
+    for k in range(0, len(glines), CH):
+        gout += vlib.run_lines_resilient(gvh, [], glines[k:k + CH], per_case_timeout=10)
     res = []
     for i, (fam, b, ds) in enumerate(cases):
         g = gout[i] if i < len(gout) else "c%d CRASH" % i
@@ -641,6 +666,8 @@ def run(tier, seed):
         gt = r.get("gotrace", "-")
         ck.case(canon, nontrivial=("c" in gt))
         ck.count("closes_in_trace:%s" % min(gt.count("c"), 6))
+        if r["model"]["I"] != "NOCOMPILE":
+            ck.count("compile_correct:" + ("proved fragment (labels first)" if labels_first(b) else "outside proved fragment (evaluated only)"))
         if r["model"]["I"] == "NOCOMPILE":
             ck.count("outcome:compile_error")
         elif r["model"]["R"] == "FUEL":
